@@ -18,6 +18,8 @@ import (
 	"github.com/smartcontractkit/wsrpc/internal/message"
 	"github.com/smartcontractkit/wsrpc/internal/transport"
 	"github.com/smartcontractkit/wsrpc/logger"
+	"github.com/smartcontractkit/wsrpc/peer"
+	"google.golang.org/grpc/connectivity"
 	"google.golang.org/protobuf/proto"
 )
 
@@ -27,6 +29,9 @@ var (
 	vCapClient []transport.ConnectOptions
 	vCapFail   bool // the client constructor reports a dial error instead of dialing
 	vCapScript []bool // scripted dial outcomes (false = fail without dialing); exhausted = dial for real
+	// vCapAfterDial, when set, runs after a dial of the reconnect loop has succeeded and before the new
+	// transport is handed back to the loop; `ended` is closed once the transport's close callback has run
+	vCapAfterDial func(ended <-chan struct{})
 )
 
 func vNewServerTransport(c transport.WebSocketConn, config *transport.ServerConfig, after func()) transport.ServerTransport {
@@ -44,11 +49,24 @@ func vNewClientTransport(ctx context.Context, lggr logger.Logger, addr string, o
 		fail = !vCapScript[0]
 		vCapScript = vCapScript[1:]
 	}
+	hook := vCapAfterDial
 	vCapMu.Unlock()
 	if fail {
 		return nil, fmt.Errorf("verif: capture only")
 	}
-	return transport.NewClientTransport(ctx, lggr, addr, opts, after)
+	if hook == nil {
+		return transport.NewClientTransport(ctx, lggr, addr, opts, after)
+	}
+	ended := make(chan struct{})
+	var once sync.Once
+	tr, err := transport.NewClientTransport(ctx, lggr, addr, opts, func() {
+		after()
+		once.Do(func() { close(ended) })
+	})
+	if err == nil {
+		hook(ended)
+	}
+	return tr, err
 }
 
 var vC18Vals = []int64{0, 0, 0, 1, 1024, 65536, 10_000_000, 100_000_000, 123456789, -1}
@@ -164,6 +182,7 @@ func TestVerifC18(t *testing.T) {
 		vC18ClientLimit(r, skey, ckey, limit)
 	}
 	vC18Stall(r, skey, ckey)
+	vC18IdleThenWrite(r, skey, ckey)
 }
 
 // a request frame whose total length is exactly n bytes
@@ -305,4 +324,68 @@ func vC18Stall(r *vRand, skey, ckey vKeyPair) {
 		c.Fail = "stall-exceeds-write-timeout"
 	}
 	vEmit(c)
+}
+
+// the write timeout bounds a write, not the time since the previous one: a healthy session which
+// idles for several write timeouts must carry the next call in each direction and stay the same session
+func vC18IdleThenWrite(r *vRand, skey, ckey vKeyPair) {
+	timeout := 500 * time.Millisecond
+	idle := 5 * timeout
+	ls := vStartLibServer(skey, []ed25519.PublicKey{ckey.Pub}, true, WithHTTPReadTimeout(time.Second, timeout))
+	defer vStop(ls.S, 5*time.Second)
+	px := vStartProxy(ls.Addr)
+	defer px.Close()
+	ctx, cancel := context.WithTimeout(context.Background(), 120*time.Second)
+	defer cancel()
+	info := map[string]interface{}{"write_timeout_ms": timeout.Milliseconds(), "idle_ms": idle.Milliseconds(), "outcome": "ok"}
+	c := vCase{Class: "idle-then-write", Sig: "idle-then-write", Info: info}
+	cc, err := vDialLib(ctx, px.Addr, ckey, skey.Pub, WithBlock(), WithWriteTimeout(timeout))
+	if err != nil {
+		c.Fail = "client-dial-failed"
+		vEmit(c)
+		return
+	}
+	cc.RegisterService(vDesc(), &vImpl{})
+	both := func(tag string) (error, error) {
+		cctx, ccancel := context.WithTimeout(context.Background(), 3*time.Second)
+		defer ccancel()
+		out := &message.Response{}
+		s2c := ls.S.Invoke(peer.NewCallContext(cctx, ckey.Static()), "Echo", vAppMsg("s2c"+tag, []byte("y"), ""), out)
+		out2 := &message.Response{}
+		c2s := cc.Invoke(cctx, "Echo", vAppMsg("c2s"+tag, []byte("x"), ""), out2)
+		return c2s, s2c
+	}
+	// both write pumps have written once
+	warm := vWaitUntil(5*time.Second, func() bool { a, b := both("-warm"); return a == nil && b == nil })
+	if !warm {
+		a, b := both("-warm")
+		c.Fail = "session-not-usable"
+		info["outcome"] = fmt.Sprint(a, " | ", b)
+		vEmit(c)
+		px.Close()
+		vClose(cc, 5*time.Second)
+		return
+	}
+	dials := px.DialCount()
+	left := make(chan bool, 1)
+	wctx, wcancel := context.WithCancel(context.Background())
+	go func() { left <- cc.WaitForStateChange(wctx, connectivity.Ready) }()
+	time.Sleep(idle)
+	c2s, s2c := both("-after-idle")
+	time.Sleep(100 * time.Millisecond) // a dropped session shows at once
+	wcancel()
+	changed := <-left
+	open := ls.S.OpenConnections()
+	info["c2s"], info["s2c"] = fmt.Sprint(c2s), fmt.Sprint(s2c)
+	info["state_left_ready"], info["open_connections"], info["new_dials"] = changed, open, px.DialCount()-dials
+	switch {
+	case c2s != nil || s2c != nil:
+		c.Fail = "stale-write-deadline-after-idle/call-fails"
+		info["outcome"] = "a call on a healthy session failed after the session had idled for 5 write timeouts"
+	case changed || px.DialCount() != dials:
+		c.Fail = "stale-write-deadline-after-idle/session-dropped"
+		info["outcome"] = "the healthy session was replaced after it had idled for 5 write timeouts"
+	}
+	vEmit(c)
+	vClose(cc, 5*time.Second)
 }
